@@ -46,7 +46,10 @@ func (m EntitiesDescriptor) MarshalXML(e *xml.Encoder, _ xml.StartElement) error
 		vu := RelaxedTime(*m.ValidUntil)
 		validUntil = &vu
 	}
-	if m.CacheDuration != nil {
+	// A zero duration has no text form (Duration marshals it to nothing), so it
+	// is omitted like EntityDescriptor does; an empty cacheDuration="" attribute
+	// would not unmarshal.
+	if m.CacheDuration != nil && *m.CacheDuration != 0 {
 		cd := Duration(*m.CacheDuration)
 		cacheDuration = &cd
 	}
